@@ -22,11 +22,11 @@ RULE = (
     "the unknown sample x filler layout {one object per centre; dense-compact ref vs sparse-wide unknown; "
     "reverse; unknown larger in patch 0 but smaller in total} x configuration {binning (right/left closed, "
     "empty middle bin, zmin 0.01, z 1.6-6) x scale set (1,2,3,4 scales, also listed in non-ascending order) x unit (deg, arcmin, kpc, Mpc, kpc/h, "
-    "Mpc/h; one Mpc configuration with a spatially closed LambdaCDM instance, measured after a decoy measurement with another unnamed LambdaCDM of equal scales) x separation weighting (none, alpha=-1 res 1/3/50, alpha=0.5 res 3)} x weights {on, off, mixed: reference and unknown randoms only, signed with an exactly cancelling pair}; also two-patch worlds with centres 100 deg and exactly 180 deg apart (probes next to the far border); both "
+    "Mpc/h; one Mpc configuration with a spatially closed LambdaCDM instance, measured after a decoy measurement with another unnamed LambdaCDM of equal scales; one Mpc configuration with bin centres below z=0.05 and an H0=100 cosmology) x separation weighting (none, alpha=-1 res 1/3/50, alpha=0.5 res 3)} x weights {on, off, mixed: reference and unknown randoms only, signed with an exactly cancelling pair}; also two-patch worlds with centres 100 deg and exactly 180 deg apart (probes next to the far border); both "
     "crosscorrelate (dd,dr,rd,rr) and autocorrelate (dd,dr,rr). Oracle: O(n^2) Vincenty long-double pair "
     "loop per (scale,bin,i,j) and per-bin per-patch weight sums. Skipped by rule: a pair within 1e-9 (rel.) "
     "of a scale/fine-bin limit or an object within 1e-9 rad of a Voronoi border. Non-trivial: the reference "
-    "has >= 1 counted pair between different patches."
+    "has >= 1 counted pair between different patches. Part linkage: PatchLinkage.iter_patch_id_pairs for every symmetric link graph on 2..5 patches, auto and cross: the linked pairs, each exactly once."
 )
 ASSUMPTIONS = [
     "catalogs are created sequentially with given centres and radian input, so the library stores exactly "
@@ -56,6 +56,8 @@ CONFIGS = {
         # signed weights: the probe's weight cancels the weight of the reference object at the first centre
         # exactly (their tree has weight sum 0.0 whenever both fall into one patch and bin)
         dict(binning="B2r", scales="ang3", unit="deg", rweight=None, res=None, weighted="cancel"),
+        # bin centres below z=0.05 with a cosmology of shorter distances than the default one
+        dict(binning="lowz", scales="ang3", unit="Mpc", rweight=None, res=None, weighted=False, cosmo="h100"),
     ],
 }
 CONFIGS["thorough"] = CONFIGS["quick"] + [
@@ -102,6 +104,9 @@ def cases(tier, seed):
         for (world, _), pa, za, pb in itertools.product(world_np, (89.0, 89.6), zslots[:2], (91.5, 90.4)):
             out.append(dict(conf, world=world, npatch=2, filler="F0", pa=pa, za=za, pb=pb, row=0, seed=seed,
                             conf_id=ci, wide=180.0))
+    # every symmetric link graph on 2..5 patches: the patch pairs handed to the workers are the linked pairs, once each
+    for n in (2, 3, 4, 5):
+        out.append(dict(part="linkage", n=n))
     return out
 
 
@@ -259,8 +264,51 @@ def zfact(case):
             else "angle-largest-at-max(zmin,0.05)")
 
 
+def run_linkage(case):
+    """PatchLinkage.iter_patch_id_pairs over all symmetric link graphs with n labelled patches."""
+    import yaw
+    from yaw.correlation.measurements import PatchLinkage
+
+    n = case["n"]
+    config = yaw.Configuration.create(rmin=0.1, rmax=1.0, unit="deg", edges=[0.1, 0.2])
+    pairs = list(itertools.combinations(range(n), 2))
+    viols, graphs = [], 0
+    for mask in range(2 ** len(pairs)):
+        links = {i: {i} for i in range(n)}
+        for k, (i, j) in enumerate(pairs):
+            if mask >> k & 1:
+                links[i].add(j)
+                links[j].add(i)
+        graphs += 1
+        for auto in (False, True):
+            want = sorted([(i, j) for i in links for j in links[i] if not auto or j >= i])
+            try:
+                got = sorted(PatchLinkage(config, {i: set(s) for i, s in links.items()}).iter_patch_id_pairs(auto=auto))
+            except Exception as e:
+                viols.append(viol(f"C01/linkage/exception:{type(e).__name__}", f"links {links}, auto={auto}: {yawx.exc_name(e)}"))
+                continue
+            if got != want:
+                missing = sorted(set(want) - set(got))
+                extra = [p for p in got if got.count(p) > 1 or p not in want]
+                viols.append(viol("C01/linkage/" + ("pairs-missing" if missing else "pairs-repeated-or-unlinked"),
+                                  f"patch links {links} (auto={auto}): linked pairs {missing} are never counted, "
+                                  f"pairs {sorted(set(extra))} are counted twice or without a link"))
+        if len(viols) > 3:
+            break
+    res = dict(nontrivial=True, key=case, counters=dict(link_graphs=graphs, pipelines=0, reference_cross_patch_pairs=0))
+    if viols:
+        uniq = {}
+        for x in viols:
+            uniq.setdefault(x["signature"], x)
+        res.update(status="violation", violations=list(uniq.values()))
+    return res
+
+
 def run_case(case):
     import yaw
+
+    if case.get("part") == "linkage":
+        return run_linkage(case)
 
     cfacts_const.clear()
     world, npatch = case["world"], case["npatch"]
